@@ -47,7 +47,8 @@ def bottleneck(dgm1, dgm2, matching=False):
     """
 
     return_matching = matching
-    S = np.array(dgm1)
+    # work in float64: differences of unsigned / narrow integer inputs would wrap around
+    S = np.array(dgm1, dtype=float)
     M = min(S.shape[0], S.size)
     if S.size > 0:
         S = S[np.isfinite(S[:, 1]), :]
@@ -56,7 +57,7 @@ def bottleneck(dgm1, dgm2, matching=False):
                 "dgm1 has points with non-finite death times;" + "ignoring those points"
             )
             M = S.shape[0]
-    T = np.array(dgm2)
+    T = np.array(dgm2, dtype=float)
     N = min(T.shape[0], T.size)
     if T.size > 0:
         T = T[np.isfinite(T[:, 1]), :]
